@@ -10,12 +10,13 @@ class StathamError(Exception):
 def _display(value, render=repr) -> str:
     """Render a value for an error message.
 
-    Integers beyond the interpreter's int-to-str limit cannot be rendered;
-    reporting the failure must not raise an unrelated `ValueError`.
+    Integers beyond the interpreter's int-to-str limit and elements nested
+    beyond the recursion limit cannot be rendered; reporting the failure
+    must not raise an unrelated `ValueError` or `RecursionError`.
     """
     try:
         return render(value)
-    except ValueError:
+    except (ValueError, RecursionError):
         return f"<{type(value).__name__} too large to display>"
 
 
